@@ -13,6 +13,352 @@ def Inv (s : Buf) : Prop := s.off ≤ s.data.length
 
 theorem reset_inv (s : Buf) : Inv s.reset := by simp [Inv, Buf.reset]
 
+
+theorem normalize_inv (s : Buf) (h : Inv s) : Inv s.normalize ∧ s.normalize.unread = s.unread := by
+  unfold Buf.normalize
+  split
+  · rename_i hm
+    have hlen : s.len = 0 := by simp only [Bool.and_eq_true, beq_iff_eq] at hm; exact hm.1
+    refine ⟨reset_inv s, ?_⟩
+    unfold Buf.len at hlen
+    simp only [Buf.unread, Buf.reset, List.drop_nil]
+    symm; apply List.drop_eq_nil_of_le; unfold Inv at h; omega
+  · exact ⟨h, rfl⟩
+
+theorem growCore_inv (s : Buf) (n : Nat) (caps : List Nat) (s' : Buf) (caps' : List Nat)
+    (hg : s.growCore n caps = .ok (s', caps')) (h : Inv s) : Inv s' ∧ s'.unread = s.unread := by
+  unfold Buf.growCore at hg
+  split at hg
+  · cases hg; exact ⟨h, rfl⟩
+  · split at hg
+    · cases hg; exact ⟨h, rfl⟩
+    · simp only [] at hg
+      split at hg
+      · cases hg; exact ⟨by simp [Inv], by simp [Buf.unread]⟩
+      · split at hg
+        · cases hg
+        · split at hg <;> cases hg <;> exact ⟨by simp [Inv], by simp [Buf.unread]⟩
+
+theorem growRoom_inv (s : Buf) (n : Nat) (caps : List Nat) (s' : Buf) (caps' : List Nat)
+    (h : Inv s) (hg : s.growRoom n caps = .ok (s', caps')) : Inv s' ∧ s'.unread = s.unread := by
+  unfold Buf.growRoom at hg
+  have hn := normalize_inv s h
+  have := growCore_inv _ n caps s' caps' hg hn.1
+  exact ⟨this.1, this.2.trans hn.2⟩
+theorem append_inv (t : Buf) (p : Bytes) (caps : List Nat) (t' : Buf) (c' : List Nat)
+    (ht : Inv t) (ha : t.append p caps = .ok (t', c')) : Inv t' := by
+  unfold Buf.append at ha
+  split at ha
+  · simp only [pure, Except.pure, bind, Except.bind] at ha
+    cases ha; simp [Inv] at ht ⊢; omega
+  · cases hg : t.growRoom p.length caps with
+    | error e => simp [hg, bind, Except.bind] at ha
+    | ok r =>
+      obtain ⟨t1, c1⟩ := r
+      simp only [hg, bind, Except.bind, pure, Except.pure] at ha
+      cases ha
+      have := (growRoom_inv t p.length caps t1 _ ht hg).1
+      simp [Inv] at this ⊢; omega
+
+theorem inv_lastRead (s : Buf) (k : Int) (h : Inv s) : Inv { s with lastRead := k } := h
+
+theorem decodeRune_width (p : Bytes) : (decodeRune p).2 ≤ p.length := by
+  unfold decodeRune
+  repeat' split
+  all_goals simp only [List.length_cons, List.length_nil, apply_ite Prod.snd]
+  all_goals (repeat' split)
+  all_goals omega
+
+theorem readFrom_inv (st : List (Bytes × ReadErr)) : ∀ (t : Buf) (c : List Nat) (n : Int),
+    Inv t → Inv (readFromLoop st t c n).1 := by
+  induction st with
+  | nil => intro t c n ht; simpa [readFromLoop] using ht
+  | cons x xs ih =>
+    intro t c n ht
+    obtain ⟨chunk, e⟩ := x
+    simp only [readFromLoop]
+    cases hg : t.growRoom minRead c with
+    | error p => simpa using ht
+    | ok pr =>
+      obtain ⟨t1, c1⟩ := pr
+      have h1 := (growRoom_inv t minRead c t1 c1 ht hg).1
+      simp only []
+      split
+      · exact h1
+      · have h2 : Inv { t1 with data := t1.data ++ chunk } := by simp [Inv] at h1 ⊢; omega
+        cases e
+        · exact ih _ _ _ h2
+        · exact h2
+        · exact h2
+        · exact ih _ _ _ h2
+theorem step_inv (s : Buf) (op : BufOp) (caps : List Nat) (h : Inv s) : Inv (bufStep s op caps).1 := by
+  cases op with
+  | write p =>
+    simp only [bufStep]
+    cases ha : Buf.append { s with lastRead := 0 } p caps with
+    | ok r => obtain ⟨s', c'⟩ := r; exact append_inv _ p caps s' c' (inv_lastRead s 0 h) ha
+    | error e => exact h
+  | writeString p =>
+    simp only [bufStep]
+    cases ha : Buf.append { s with lastRead := 0 } p caps with
+    | ok r => obtain ⟨s', c'⟩ := r; exact append_inv _ p caps s' c' (inv_lastRead s 0 h) ha
+    | error e => exact h
+  | writeByte c =>
+    simp only [bufStep]
+    cases ha : Buf.append { s with lastRead := 0 } [c] caps with
+    | ok r => obtain ⟨s', c'⟩ := r; exact append_inv _ [c] caps s' c' (inv_lastRead s 0 h) ha
+    | error e => exact h
+  | writeRune r =>
+    simp only [bufStep]
+    split
+    · cases ha : Buf.append { s with lastRead := 0 } [r.toNat.toUInt8] caps with
+      | ok q => obtain ⟨s', c'⟩ := q; exact append_inv _ _ caps s' c' (inv_lastRead s 0 h) ha
+      | error e => exact h
+    · split
+      · rename_i s1 c1 heq
+        split at heq
+        · cases heq; simp [Inv] at h ⊢; omega
+        · have := (growRoom_inv _ 4 caps s1 c1 (inv_lastRead s 0 h) heq).1
+          simp [Inv] at this ⊢; omega
+      · exact h
+  | read n =>
+    simp only [bufStep]
+    split
+    · exact reset_inv _
+    · rename_i he
+      simp [Inv, Buf.empty, Buf.len] at he h ⊢; omega
+  | next n =>
+    simp only [bufStep]
+    by_cases hgt : n > ((Buf.len { s with lastRead := 0 } : Nat) : Int)
+    · simp only [hgt, ↓reduceIte]
+      split
+      · exact h
+      · simp [Inv, Buf.len] at h ⊢; omega
+    · simp only [hgt, ↓reduceIte]
+      split
+      · exact h
+      · rename_i hn
+        simp [Inv, Buf.len] at h hn hgt ⊢; omega
+  | readByte =>
+    simp only [bufStep]
+    split
+    · exact reset_inv _
+    · rename_i he; simp [Inv, Buf.empty] at he h ⊢; omega
+  | readRune =>
+    simp only [bufStep]
+    split
+    · exact reset_inv _
+    · rename_i he
+      split
+      · simp [Inv, Buf.empty] at he h ⊢; omega
+      · have hw := decodeRune_width s.unread
+        simp [Inv, Buf.unread, Buf.empty] at hw he h ⊢; omega
+  | unreadRune =>
+    simp only [bufStep]
+    split
+    · exact h
+    · simp only [Inv] at h ⊢; split <;> omega
+  | unreadByte =>
+    simp only [bufStep]
+    split
+    · exact h
+    · simp only [Inv] at h ⊢; split <;> omega
+  | readBytes d =>
+    simp only [bufStep]
+    split
+    · rename_i i hi
+      have : i < s.unread.length := by
+        unfold indexByte at hi
+        exact (List.findIdx?_eq_some_iff_findIdx_eq.mp hi).1
+      simp [Inv, Buf.unread] at this h ⊢; omega
+    · simp [Inv]
+  | readString d =>
+    simp only [bufStep]
+    split
+    · rename_i i hi
+      have : i < s.unread.length := by
+        unfold indexByte at hi
+        exact (List.findIdx?_eq_some_iff_findIdx_eq.mp hi).1
+      simp [Inv, Buf.unread] at this h ⊢; omega
+    · simp [Inv]
+  | readFrom steps => exact readFrom_inv steps _ caps 0 (inv_lastRead s 0 h)
+  | writeTo accept fail =>
+    simp only [bufStep]
+    split
+    · split
+      · exact h
+      · split
+        · exact h
+        · rename_i h1 h2
+          have : accept.toNat ≤ s.data.length - s.off := by simp [Buf.len] at h1; omega
+          split
+          · simp [Inv] at h ⊢; omega
+          · split
+            · simp [Inv] at h ⊢; omega
+            · exact reset_inv _
+    · exact reset_inv _
+  | truncate n =>
+    simp only [bufStep]
+    split
+    · exact reset_inv _
+    · split
+      · exact h
+      · rename_i hn
+        simp [Inv, Buf.len] at h hn ⊢; omega
+  | grow n =>
+    simp only [bufStep]
+    split
+    · exact h
+    · cases hg : s.growRoom n.toNat caps with
+      | ok q => obtain ⟨s', c'⟩ := q; exact (growRoom_inv s _ caps s' c' h hg).1
+      | error e => exact h
+  | reset => exact reset_inv s
+  | len => exact h
+  | bytes => exact h
+  | string => exact h
+
+def bufRun (s : Buf) (ops : List (BufOp × List Nat)) : Buf := ops.foldl (fun s oc => (bufStep s oc.1 oc.2).1) s
+
+/-- (1) The representation invariant holds after every sequence of the listed operations, from any
+    well-formed start and whatever capacities the runtime grants: no slice expression of the buffer
+    code is ever out of range. -/
+theorem run_inv (s : Buf) (ops : List (BufOp × List Nat)) (h : Inv s) : Inv (bufRun s ops) := by
+  induction ops generalizing s with
+  | nil => exact h
+  | cons oc ops ih => exact ih _ (step_inv s oc.1 oc.2 h)
+
+/-- (2) Growing never changes the unread contents (whether it reslices, slides or reallocates, and
+    whatever capacity the runtime grants). -/
+theorem grow_keeps_contents (s : Buf) (n : Nat) (caps : List Nat) (s' : Buf) (c' : List Nat)
+    (h : Inv s) (hg : s.growRoom n caps = .ok (s', c')) : s'.unread = s.unread :=
+  (growRoom_inv s n caps s' c' h hg).2
+
+theorem growCore_error (s : Buf) (n : Nat) (caps : List Nat) (e : BufPanic)
+    (h : s.growCore n caps = .error e) : e = .tooLarge := by
+  unfold Buf.growCore at h
+  split at h
+  · cases h
+  · split at h
+    · cases h
+    · simp only [] at h
+      split at h
+      · cases h
+      · split at h
+        · cases h; rfl
+        · split at h <;> cases h
+
+theorem append_error (s : Buf) (p : Bytes) (caps : List Nat) (e : BufPanic)
+    (h : s.append p caps = .error e) : e = .tooLarge := by
+  unfold Buf.append at h
+  split at h
+  · simp [pure, Except.pure, bind, Except.bind] at h
+  · cases hg : s.growRoom p.length caps with
+    | error e' =>
+      simp only [hg, bind, Except.bind] at h
+      cases h
+      exact growCore_error _ _ _ _ hg
+    | ok r => simp [hg, bind, Except.bind, pure, Except.pure] at h
+
+theorem readFrom_panic (st : List (Bytes × ReadErr)) : ∀ (t : Buf) (c : List Nat) (n : Int) (p : BufPanic),
+    (readFromLoop st t c n).2 = .panic p → p = .tooLarge ∨ p = .negativeRead := by
+  induction st with
+  | nil => intro t c n p h; simp [readFromLoop] at h
+  | cons x xs ih =>
+    intro t c n p h
+    obtain ⟨chunk, e⟩ := x
+    simp only [readFromLoop] at h
+    cases hg : t.growRoom minRead c with
+    | error q =>
+      simp only [hg] at h
+      cases h
+      exact Or.inl (growCore_error _ _ _ _ hg)
+    | ok pr =>
+      obtain ⟨t1, c1⟩ := pr
+      simp only [hg] at h
+      split at h
+      · cases h; exact Or.inr rfl
+      · cases e <;> simp only [] at h
+        · exact ih _ _ _ _ h
+        · cases h
+        · cases h
+        · exact ih _ _ _ _ h
+
+/-- (2') An undocumented (runtime) panic can only come from a negative count given to Next, or from
+    a writer that reports a negative count to WriteTo — exactly as with bytes.Buffer. Every other
+    panic of the model is one of the documented ones (truncation out of range, negative Grow count,
+    too large, negative Read count, invalid Write count). -/
+theorem runtime_panic_only_from_bad_arguments (s : Buf) (op : BufOp) (caps : List Nat)
+    (hp : (bufStep s op caps).2 = .panic .runtime) :
+    (∃ n, op = .next n ∧ n < 0) ∨ (∃ a f, op = .writeTo a f ∧ a < 0) := by
+  cases op with
+  | write p | writeString p =>
+    simp only [bufStep] at hp
+    split at hp
+    · cases hp
+    · rename_i e heq; cases hp; exact absurd (append_error _ _ _ _ heq) (by decide)
+  | writeByte c =>
+    simp only [bufStep] at hp
+    split at hp
+    · cases hp
+    · rename_i e heq; cases hp; exact absurd (append_error _ _ _ _ heq) (by decide)
+  | writeRune r =>
+    simp only [bufStep] at hp
+    split at hp
+    · split at hp
+      · cases hp
+      · rename_i e heq; cases hp; exact absurd (append_error _ _ _ _ heq) (by decide)
+    · split at hp
+      · cases hp
+      · rename_i e heq
+        cases hp
+        split at heq
+        · cases heq
+        · exact absurd (growCore_error _ _ _ _ heq) (by decide)
+  | read n => simp only [bufStep] at hp; split at hp <;> (try split at hp) <;> cases hp
+  | next n =>
+    left
+    refine ⟨n, rfl, ?_⟩
+    simp only [bufStep] at hp
+    by_cases hgt : n > ((Buf.len { s with lastRead := 0 } : Nat) : Int)
+    · simp only [hgt, ↓reduceIte] at hp
+      split at hp
+      · rename_i hneg; omega
+      · cases hp
+    · simp only [hgt, ↓reduceIte] at hp
+      split at hp
+      · rename_i hneg; exact hneg
+      · cases hp
+  | readByte => simp only [bufStep] at hp; split at hp <;> cases hp
+  | readRune => simp only [bufStep] at hp; split at hp <;> (try split at hp) <;> cases hp
+  | unreadRune => simp only [bufStep] at hp; split at hp <;> cases hp
+  | unreadByte => simp only [bufStep] at hp; split at hp <;> cases hp
+  | readBytes d | readString d => simp only [bufStep] at hp; split at hp <;> cases hp
+  | readFrom steps =>
+    simp only [bufStep] at hp
+    rcases readFrom_panic steps _ caps 0 _ hp with h | h <;> cases h
+  | writeTo accept fail =>
+    right
+    refine ⟨accept, fail, rfl, ?_⟩
+    simp only [bufStep] at hp
+    split at hp
+    · split at hp
+      · cases hp
+      · split at hp
+        · rename_i h; exact h
+        · split at hp
+          · cases hp
+          · split at hp <;> cases hp
+    · cases hp
+  | truncate n => simp only [bufStep] at hp; split at hp <;> (try split at hp) <;> cases hp
+  | grow n =>
+    simp only [bufStep] at hp
+    split at hp
+    · cases hp
+    · split at hp
+      · cases hp
+      · rename_i e heq; cases hp; exact absurd (growCore_error _ _ _ _ heq) (by decide)
+  | reset | len | bytes | string => simp [bufStep] at hp
+
 /-- (3) Reset empties the buffer; Len/Bytes/String do not change it. -/
 theorem reset_empties (s : Buf) (caps : List Nat) :
     (bufStep s .reset caps).1.unread = [] ∧ (bufStep s .len caps).1 = s ∧ (bufStep s .string caps).1 = s := by
